@@ -654,6 +654,16 @@ func (r *Resolver) groupLookup(ctx context.Context, rs *resolveState, req *dns.M
 				resp = resp.Copy()
 			}
 			resp.Id = req.Id
+			// The lookup key folds case, so a follower may have spelled
+			// the name differently from the leader whose message this
+			// is. The reply goes out under the follower's own question —
+			// a client checking its 0x20 casing drops anything else, and
+			// the other spelling is another client's query.
+			if len(resp.Question) == 1 && len(req.Question) == 1 &&
+				resp.Question[0].Name != req.Question[0].Name &&
+				strings.EqualFold(resp.Question[0].Name, req.Question[0].Name) {
+				resp.Question[0].Name = req.Question[0].Name
+			}
 		}
 		return resp, nil
 	}
